@@ -334,7 +334,15 @@ pub fn run(code: &[u8], cfg: &RefCfg) -> RefRun {
                                             from.push(*v);
                                             match v.w {
                                                 Some(w) => words.push(w),
-                                                None => all_known = false,
+                                                None => {
+                                                    all_known = false;
+                                                    // a word made unknown by an overlapping store has lost
+                                                    // its provenance as well: what flows into this hash is
+                                                    // not known exactly
+                                                    if t.path.mem_imprecise {
+                                                        precise = false;
+                                                    }
+                                                }
                                             }
                                         }
                                         None => {
